@@ -312,7 +312,27 @@ where
             probs.join(" && ")
         }
     });
-    format!("P:{}|C:{}|FP:{}|FC:{}|TK:{}|X:{}#{:x}", p, c, fp, fc, tk, x, errhash)
+    // the text of the report of a rejected full parse, line by line (first line = the marker line, dropped)
+    let rp = if full_p_ok.is_none() {
+        guard(|| {
+            let mut stack = Stack::new();
+            let mut tr = Tracker::new(input);
+            let _ = T::try_parse_with(input, &mut stack, &mut tr);
+            let err = tr.collect();
+            match &err.variant {
+                pest_typed::error::ErrorVariant::CustomError { message } => message
+                    .split('\n')
+                    .skip(1)
+                    .map(|l| l.trim_start().to_string())
+                    .collect::<Vec<_>>()
+                    .join(";"),
+                _ => "?".to_string(),
+            }
+        })
+    } else {
+        "-".to_string()
+    };
+    format!("P:{}|C:{}|FP:{}|FC:{}|TK:{}|RP:{}|X:{}#{:x}", p, c, fp, fc, tk, rp, x, errhash)
 }
 
 pub fn unhex(h: &str) -> String {
